@@ -87,6 +87,17 @@ func runAll(ctx *Ctx, sel func(*FuncContract) bool, secs int, thorough bool, job
 			fr.VC.declsCache = fr.VC.tt.Decls()
 		}
 		for _, o := range fr.Obls {
+			if currentProp != "" && len(fr.Contract.OnlyProp) > 0 {
+				short := o.Name
+				if i := strings.LastIndex(short, "#"); i >= 0 {
+					short = short[i+1:]
+				}
+				if m := oblLabelRe.FindStringSubmatch(short); m != nil {
+					if p, ok := fr.Contract.OnlyProp[m[1]]; ok && p != currentProp {
+						continue
+					}
+				}
+			}
 			all = append(all, &OblResult{Obl: o, Func: fr})
 		}
 	}
@@ -139,6 +150,11 @@ func runAll(ctx *Ctx, sel func(*FuncContract) bool, secs int, thorough bool, job
 	}
 	return frs, all
 }
+
+// currentProp: the property being checked (clauses marked onlyprop for another one are skipped).
+var currentProp string
+
+var oblLabelRe = regexp.MustCompile(`^(?:ensures:|inv:[^.]*\.|callsite:[^.]*\.)([A-Za-z_][A-Za-z0-9_]*)`)
 
 func classify(or *OblResult) {
 	r := or.Res
@@ -214,6 +230,7 @@ func cmdVerify(args []string) {
 	if *dump != "" {
 		os.MkdirAll(*dump, 0o755)
 	}
+	currentProp = *prop
 	frs, all := runAll(ctx, sel, *secs, *thorough, *jobs, *dump)
 	for _, fr := range frs {
 		if fr.Err != "" {
